@@ -144,14 +144,16 @@ class RunResult:
 
 
 def run_analysis(case, workers, timeout, chooser, threshold, max_steps=200000, deadline_slack=None,
-                 parent_cost=None, speeds=None, start_delays=None, want_report=True, extra_inv=None):
+                 parent_cost=None, speeds=None, start_delays=None, want_report=True, extra_inv=None, rtt=None):
     """One simulated analysis.  Returns RunResult with everything the oracles need."""
     import osaca.semantics.kernel_dg as kd
     case.prepare()
     sim = Sim(chooser, max_steps=max_steps)
     sim.captured = {}
+    if rtt is None:
+        rtt = procs.RTTS[chooser.choose(len(procs.RTTS), "rtt")]
     w = procs.World(sim, ncpu=workers, shared=[case.parser, case.mm, case.sem],
-                    speeds=speeds or procs.SPEEDS, start_delays=start_delays or procs.START_DELAYS)
+                    speeds=speeds or procs.SPEEDS, start_delays=start_delays or procs.START_DELAYS, rtt=rtt)
     if parent_cost is None:
         parent_cost = (speeds or procs.SPEEDS)[chooser.choose(len(speeds or procs.SPEEDS), "pspeed")]
     res = RunResult()
@@ -165,10 +167,16 @@ def run_analysis(case, workers, timeout, chooser, threshold, max_steps=200000, d
         def inv(s):
             c = s.captured
             if c.get("in_search") and s.now - c["search_enter"] > bound:
-                raise InvariantViolation(
-                    "deadline_overrun",
-                    "search still running %.3f s after it began (timeout %s, bound %.3f)"
-                    % (s.now - c["search_enter"], timeout, bound))
+                # the deadline bounds the *search*: workers still running, or (sequential branch, no
+                # worker was ever created) the parent enumerating.  Copying results out of the manager
+                # and post-processing after every worker is dead is overhead the property does not bound.
+                alive = [p.pid for p in w.procs if p.started and not p.task.done and not p.task.killed]
+                if alive or not w.procs:
+                    raise InvariantViolation(
+                        "deadline_overrun",
+                        "search still running %.3f s after it began (timeout %s, bound %.3f; %s)"
+                        % (s.now - c["search_enter"], timeout, bound,
+                           "workers alive: %r" % alive if alive else "sequential enumeration in the parent"))
 
         sim.invariants.append(inv)
     if extra_inv:
